@@ -577,7 +577,8 @@ def call_post(s, r):
             ("assignees-renamed", f_asg(r) == If(include_lhs, MAPPED_ASG(f_asg(s)), f_asg(s)))]
 
 
-def units():
+def map_expressions_units():
+    """the map_expressions chains and the identity lemma (C16; C08's last sentence)"""
     us = []
     # renaming must reach guard, lhs, rhs, loop identifiers and bounds of an Assign ...
     us += chain_units("Assign", ["condition", "lhs", "rhs", "loops"])
@@ -585,7 +586,13 @@ def units():
     us += chain_units("YieldState", ["condition", "expression", "time"])
     # ... guard, function, arguments and assignees of an AssignFunctionCall
     us += chain_units("AssignFunctionCall", ["condition"], extra_post=call_post)
-    us += [LemmaUnit("lemma:identity-map(C08)", identity_lemma), FunctionUnit(FusePhases()), FunctionUnit(FuseDags())]
+    us += [LemmaUnit("lemma:identity-map(C08)", identity_lemma)]
+    return us
+
+
+def units():
+    us = map_expressions_units()
+    us += [FunctionUnit(FusePhases()), FunctionUnit(FuseDags())]
     # A-FUSE finds the names used by a method through get_read_variables / get_written_variables: the declared
     # sets (C08) are functions this property depends on
     from . import c08
